@@ -13,6 +13,7 @@ def step (st : St) (line : String) : St × String :=
   match (line.trimAscii.toString.splitOn " ").filter (· ≠ "") with
   | "c19" :: args => (st, Driver.C19.handle args)
   | "frame" :: args => let (z, o) := Driver.Frame.handle st.z ("frame" :: args); ({ st with z := z }, o)
+  | "prim" :: args => let (z, o) := Driver.Frame.handle st.z ("prim" :: args); ({ st with z := z }, o)
   | "z" :: args => let (z, o) := Driver.Frame.handle st.z ("z" :: args); ({ st with z := z }, o)
   | "inf" :: args => let (s, o) := Driver.C09.handle st.inf args; ({ st with inf := s }, o)
   | "c20" :: args => let (s, o) := Driver.C20.handle st.c20 args; ({ st with c20 := s }, o)
